@@ -313,6 +313,28 @@ def _drive0(seed):
     ev = []
     err = None
     try:
+        # simulations are also written through their own to_file(what=...)
+        # first; what was written must come back, and the later generic save
+        # must not be influenced by it
+        def sims(a, cc, out):
+            if isinstance(a, dict) and "leaf" in a and \
+                    isinstance(a["leaf"], str):
+                if a["leaf"].startswith("Simulation#"):
+                    out.append(cc)
+            elif isinstance(a, dict):
+                for k in a:
+                    sims(a[k], cc[k], out)
+            return out
+        for j, sim in enumerate(sims(abst, conc, [])[:2]):
+            if rng.random() < 0.6:
+                what = rng.choice(["computed", "results", "all", "plain"])
+                fs = os.path.join(tmp, f"s{j}.{rng.choice(FMTS)}")
+                sim.to_file(fs, what=what, verb=0)
+                back = emg3d.Simulation.from_file(fs, verb=0)
+                if not deep_equal(sim.to_dict(what), back.to_dict(what)):
+                    raise AssertionError(
+                        f"Simulation.to_file(what='{what}') / from_file does "
+                        f"not return the same content")
         chain = [rng.choice(FMTS)]
         for _ in range(rng.choice([0, 0, 1, 1, 2])):
             chain.append(rng.choice([f for f in FMTS if f != chain[-1]]))
